@@ -19,7 +19,7 @@ SWEEP_BATCH = 100
 SWEEP_EXHAUSTIVE_NOTE = ("bounded sweep over B base documents (B = 4 quick, 40 thorough): the archive truncated at every "
                          "64th byte (every 7th byte in the thorough tier) and content.xml cut at every tag boundary")
 FEATURES = ["colruns", "rowruns", "s-single", "s-noc", "paragraphs", "spans", "emptyp", "stored", "utf16", "latin1",
-            "colstyle", "trailing-empty-run"]
+            "colstyle", "trailing-empty-run", "annotations"]
 FAULT_KINDS = ["truncate", "xml-cut", "member-missing", "not-a-zip", "corrupt-member", "bad-repeat", "missing-sheet"]
 RULE_TEXT = (
     "seeded scenarios: 1-3 sheets of 0-6 rows x 0-8 cells over an alphabet with runs of equal cells, equal adjacent rows, "
@@ -41,11 +41,13 @@ COMPONENTS = {
     "real": ["cutplace.rowio.ods_rows", "zipfile", "zlib", "xml.etree.ElementTree", "io.BufferedReader"],
     "stub": ["ODF peer (encoder)", "SimFS/SimRaw (short reads)", "fault injector"],
 }
-PROBES_REQUIRED = ["used:number-columns-repeated", "used:number-rows-repeated", "used:text:s", "used:text:tab",
+PROBES_REQUIRED = ["path-rewritten-between-two-reads", "used:office:annotation", "used:number-columns-repeated", "used:number-rows-repeated", "used:text:s", "used:text:tab",
                    "used:text:line-break", "used:text:span", "used:paragraphs", "used:empty-paragraph",
                    "used:encoding:UTF-16", "sheet:1", "sheet:2", "sheet:3"] + ["fault:" + kind for kind in FAULT_KINDS]
 ALPHABETS = [["a", "b"], ["a", "", ""], ["a b", "a  b", " a", "a ", "  "], ["a\tb", "\t", "a"], ["l1\nl2", "\n", "a\n"],
-             ["<&>", "ü€", "a"], ["a", "b  c\td\ne", "", "<x>"]]
+             ["<&>", "ü€", "a"], ["a", "b  c\td\ne", "", "<x>"],
+             # blanks between / next to white-space elements, text starting with a line break
+             ["a\t \tb", "x\n y", "\t ", " \n ", "a \tb", "\nlead", "\n\n", "a\n\nb"]]
 
 
 def draw_sheets(rng, swarm):
@@ -85,7 +87,12 @@ def generate(seed, tier):
             fault["value"] = fault_rng.choice(["0", "-1", "x", "", "1.5", "-0"])
         if kind == "missing-sheet":
             sheet = len(sheets) + 1
-    return {"io": simfs.IoConfig.draw(swarm), "sheets": sheets, "features": features, "sheet": sheet, "fault": fault}
+    earlier = None
+    if swarm.random() < 0.2:
+        # the same path held another document a moment ago and was read then
+        earlier = {"sheets": draw_sheets(rng, swarm), "features": sorted(swarm.sample(FEATURES, swarm.randint(0, 3)))}
+    return {"io": simfs.IoConfig.draw(swarm), "sheets": sheets, "features": features, "sheet": sheet, "fault": fault,
+            "earlier_document_at_same_path": earlier}
 
 
 def build(scenario):
@@ -221,8 +228,15 @@ def execute(scenario):
         if decoded != logical:
             raise RuntimeError("ODF peer and reference decoder disagree: %r vs %r" % (decoded, logical))
     fs = simfs.SimFS(simfs.IoConfig.from_dict(scenario["io"]))
-    fs.store("data.ods", data)
     sheet = scenario["sheet"]
+    earlier = scenario.get("earlier_document_at_same_path")
+    if earlier:
+        fs.store("data.ods", odf.encode(earlier["sheets"], set(earlier["features"]))[0])
+        with simfs.Seams(fs):
+            for number in range(1, len(earlier["sheets"]) + 1):
+                lib.call(lambda: list(rowio.ods_rows("data.ods", number)))
+        result.probe("path-rewritten-between-two-reads")
+    fs.store("data.ods", data)
     with simfs.Seams(fs):
         status, value = lib.call(lambda: [list(row) for row in rowio.ods_rows("data.ods", sheet)])
     history.add("client", "ods_rows", {"sheet": sheet, "status": status,
@@ -309,6 +323,8 @@ def candidates(scenario):
                 yield candidate
     for candidate in lib.io_candidates(scenario):
         yield candidate
+    if scenario.get("earlier_document_at_same_path"):
+        yield lib.with_value(scenario, ["earlier_document_at_same_path"], None)
     for sheet_index, table in enumerate(sheets):
         for row_index, row in enumerate(table):
             for cell_index, cell in enumerate(row):
